@@ -2,11 +2,16 @@
 use crate::util::Ctx;
 
 pub mod real;
+pub mod c03;
 pub mod c12;
 pub mod c16;
 
 pub fn run(ctx: &mut Ctx) -> bool {
     match ctx.id.as_str() {
+        "C03" => {
+            ctx.rule = c03::RULE.into();
+            c03::run(ctx)
+        }
         "C12" => {
             ctx.rule = c12::RULE.into();
             c12::run(ctx)
